@@ -69,6 +69,9 @@ type WireObs struct {
 	Feasible  bool      `json:"feasible"` // the requested release order could be forced
 	Gate      string    `json:"gate"`
 	Order     []int     `json:"order"`
+	// ExpEcho: the numbers NNN of the TestReqIDs "qNNN" sent on this connection, in order ([] = not judged): the Heartbeats that
+	// echo such IDs must echo exactly these, in this order (a prefix of them when the observation ended early)
+	ExpEcho []int `json:"expEcho"`
 }
 
 func goid() int {
@@ -379,7 +382,7 @@ func RunGate(sc *SPScenario) (*WireObs, string) {
 	}
 	mu.Lock()
 	defer mu.Unlock()
-	o := &WireObs{K: "wire", ID: sc.ID, Kind: "gate", Start: sc.StartSeq, Virtual: false, Msgs: wire, Expected: sc.N,
+	o := &WireObs{K: "wire", ID: sc.ID, Kind: "gate", Start: sc.StartSeq, Virtual: false, Msgs: wire, Expected: sc.N, ExpEcho: []int{},
 		Feasible: feasible, Gate: sc.Gate, Order: sc.Order}
 	o.ExpSender, o.ExpTarget = ints([]byte(ourID)), ints([]byte(peerID))
 	return o, ""
@@ -460,7 +463,7 @@ func RunStress(t *testing.T, sc *SPScenario) (obs *WireObs, failure string) {
 			wire = append(wire, wireRec(raw, &all, outs[i].T))
 		}
 		mu.Unlock()
-		obs = &WireObs{K: "wire", ID: sc.ID, Kind: "stress", Start: sc.StartSeq, Virtual: true, Msgs: wire,
+		obs = &WireObs{K: "wire", ID: sc.ID, Kind: "stress", Start: sc.StartSeq, Virtual: true, Msgs: wire, ExpEcho: []int{},
 			Expected: sc.N * sc.PerSender, Feasible: true, Gate: "", Order: []int{}}
 		if sc.Role == "acceptor" {
 			obs.ExpSender, obs.ExpTarget = ints([]byte(ourID)), ints([]byte(peerID))
